@@ -22,6 +22,8 @@
 (* Resolver kinds (all act on ONE promise object):                         *)
 (*   RVal/RExc/RDrop  p(v) / p(exception_ptr) / p(drop)                    *)
 (*   RMdes   { promise q(std::move(p)); }  move-construct then destroy     *)
+(*   RMasg   { promise q; q = std::move(p); }  move-ASSIGN then destroy:     *)
+(*           drop of q's own (empty) target, claim of p, store into q       *)
 (*   RDtor   the final destruction of p itself, after every other resolver *)
 (*           returned (an object cannot be destroyed while in use)         *)
 (*   RFinal  completion of an async coroutine bound to the future          *)
@@ -33,9 +35,9 @@
 (***************************************************************************)
 EXTENDS Naturals, Sequences, FiniteSets, TLC
 
-CONSTANTS RVal, RExc, RDrop, RMdes, RDtor, RFinal, WCo, WHv, WBl, WCb
+CONSTANTS RVal, RExc, RDrop, RMdes, RMasg, RDtor, RFinal, WCo, WHv, WBl, WCb
 
-Resolvers == RVal \cup RExc \cup RDrop \cup RMdes \cup RDtor \cup RFinal
+Resolvers == RVal \cup RExc \cup RDrop \cup RMdes \cup RMasg \cup RDtor \cup RFinal
 Waiters == WCo \cup WHv \cup WBl \cup WCb
 Coro == WCo \cup WHv
 
@@ -70,7 +72,8 @@ Init ==
     /\ tag = IF RFinal # {} THEN "val" ELSE "none"
     /\ payload = IF RFinal # {} THEN CHOOSE r \in RFinal : TRUE ELSE "none"
     /\ writes = IF RFinal # {} THEN 1 ELSE 0
-    /\ rpc = [r \in Resolvers |-> IF r \in RFinal THEN "swap" ELSE IF r \in RDtor THEN "dtor" ELSE "claim"]
+    /\ rpc = [r \in Resolvers |-> IF r \in RFinal THEN "swap" ELSE IF r \in RDtor THEN "dtor"
+                                 ELSE IF r \in RMasg THEN "mclaim_own" ELSE "claim"]
     /\ rres = [r \in Resolvers |-> "none"]
     /\ cur = [r \in Resolvers |-> "null"]
     /\ rest = [r \in Resolvers |-> "null"]
@@ -130,12 +133,24 @@ Claim(r) ==
                         /\ payload' = r
                         /\ writes' = writes + 1
                    ELSE UNCHANGED <<tag, payload, writes>>
-              /\ rpc' = [rpc EXCEPT ![r] = IF r \in RMdes THEN "dload_own" ELSE "swap"]
+              /\ rpc' = [rpc EXCEPT ![r] = IF r \in RMdes THEN "dload_own" ELSE IF r \in RMasg THEN "massign_own" ELSE "swap"]
               /\ UNCHANGED rres
-         ELSE /\ rpc' = [rpc EXCEPT ![r] = IF r \in RMdes THEN "dload_null" ELSE "done"]
-              /\ rres' = [rres EXCEPT ![r] = IF r \in RMdes THEN "none" ELSE "false"]
+         ELSE /\ rpc' = [rpc EXCEPT ![r] = IF r \in RMdes THEN "dload_null" ELSE IF r \in RMasg THEN "massign_null" ELSE "done"]
+              /\ rres' = [rres EXCEPT ![r] = IF r \in RMdes \cup RMasg THEN "none" ELSE "false"]
               /\ UNCHANGED <<tag, payload, writes>>
     /\ UNCHANGED <<slot, nxt, cur, rest, sp, swapped, flag, wpc, seen, resumes>>
+
+(* promise::operator=(promise&&): first `set_value(drop)` on the assigned-to promise q (claim exchange on q's own,
+   empty, owner pointer: nothing to drop), then the claim of p (Claim above), then the store into q's owner *)
+MClaimOwn(r) ==
+    /\ rpc[r] = "mclaim_own"
+    /\ rpc' = [rpc EXCEPT ![r] = "claim"]
+    /\ UNCHANGED <<owner, slot, nxt, tag, payload, writes, rres, cur, rest, sp, swapped, flag, wpc, seen, resumes>>
+
+MAssign(r) ==
+    /\ rpc[r] \in {"massign_own", "massign_null"}
+    /\ rpc' = [rpc EXCEPT ![r] = IF rpc[r] = "massign_own" THEN "dload_own" ELSE "dload_null"]
+    /\ UNCHANGED <<owner, slot, nxt, tag, payload, writes, rres, cur, rest, sp, swapped, flag, wpc, seen, resumes>>
 
 (* the final destructor of the promise object may only run when nobody uses the object any more *)
 DtorStart(r) ==
@@ -218,10 +233,10 @@ FlagWait(w) ==
     /\ UNCHANGED <<owner, slot, nxt, tag, payload, writes, rpc, rres, cur, rest, sp, swapped, flag>>
 
 -----------------------------------------------------------------------------
-Next == \/ \E r \in Resolvers : Claim(r) \/ DtorStart(r) \/ DLoad(r) \/ SwapReady(r) \/ FlagStore(r) \/ Notify(r)
+Next == \/ \E r \in Resolvers : Claim(r) \/ MClaimOwn(r) \/ MAssign(r) \/ DtorStart(r) \/ DLoad(r) \/ SwapReady(r) \/ FlagStore(r) \/ Notify(r)
         \/ \E w \in Waiters : CheckReady(w) \/ SubCAS(w) \/ Fence(w) \/ FlagWait(w)
 
-Fair == /\ \A r \in Resolvers : WF_vars(Claim(r) \/ DtorStart(r) \/ DLoad(r) \/ SwapReady(r) \/ FlagStore(r) \/ Notify(r))
+Fair == /\ \A r \in Resolvers : WF_vars(Claim(r) \/ MClaimOwn(r) \/ MAssign(r) \/ DtorStart(r) \/ DLoad(r) \/ SwapReady(r) \/ FlagStore(r) \/ Notify(r))
         /\ \A w \in Waiters : WF_vars(CheckReady(w) \/ SubCAS(w) \/ Fence(w) \/ FlagWait(w))
 
 Spec == Init /\ [][Next]_vars /\ Fair
@@ -253,7 +268,7 @@ PayloadIsWinners ==
         /\ r \in RVal => tag = "val" /\ payload = r
         /\ r \in RExc => tag = "exc" /\ payload = r
         /\ r \in RFinal => tag = "val" /\ payload = r
-        /\ r \in RDrop \cup RMdes \cup RDtor => tag = "none" /\ payload = "none"
+        /\ r \in RDrop \cup RMdes \cup RMasg \cup RDtor => tag = "none" /\ payload = "none"
 
 (* losers report failure and leave no trace (action property) *)
 LosersLeaveNoTrace ==
